@@ -171,13 +171,12 @@ class _Env:
                 ev = self.sim.schedule_event_absolute(fn, tv(t, fl), **kw)
             else:
                 ev = self.sim.schedule_event_next_tick(fn, **kw)
-        except ValueError as e:
-            msg = str(e)
-            if "in the past" in msg:
-                return R_PAST, 0
-            if "time unit mismatch" in msg:
-                return R_UNIT, 0
-            return 99, 0
+        except ValueError:
+            # which of the two rejections it was is read off the call, never off the message text (rewording a message is
+            # harmless): a time before the clock is "past", anything else "unit"
+            now = self.sim.time
+            when = {"abs": tv(t, fl), "rel": now + tv(t, fl), "now": now, "tick": now + 1}[kind]
+            return (R_PAST if when < now else R_UNIT), 0
         self.by_tag.setdefault(tag, []).append(ev)
         return R_OK, sc(ev.time)
 
@@ -244,7 +243,7 @@ class _Env:
                 info["userexc"] = True
                 ob = [-1, E_USER] + self.view(self.log)
             except Exception as e:  # noqa: BLE001
-                if not self.is_setup and "has not been setup" in str(e):
+                if not self.is_setup and self.sim.model is None and type(e) is Exception:
                     info["nosetup"] = True
                     ob = [-1, E_NOSETUP]
                 else:
@@ -273,9 +272,9 @@ class _Env:
                 self.is_setup = True
                 info["setup"] = 0
                 ob = [0] + self.view([])
-            except ValueError as e:
-                msg = str(e)
-                code = E_SETUP_TIME if "not equal to start_time" in msg else E_SETUP_EVENTS if "already been scheduled" in msg else 99
+            except ValueError:
+                # classified by the state, not by the message text
+                code = E_SETUP_TIME if self.sim.time != self.sim.start_time else E_SETUP_EVENTS
                 info["setup"] = code
                 ob = [-1, code]
         else:
